@@ -32,6 +32,13 @@ class ElementProgram:
 
         self.body = []
 
+        if mode == "text":
+            # A text template has no markup: its token(s) must not be
+            # classified by their first characters.
+            for token in tokens:
+                self.body.append(self.visit("text", (token, )))
+            return
+
         for kind, args in parser:
             node = self.visit(kind, args)
             if node is not None:
